@@ -207,6 +207,10 @@ class MediaRequestBase(RequestHandlerBase):
             traf.trun.flags |= mp4.TrackFragmentRunBox.data_offset_present
 
         tfdt.base_media_decode_time += origin_time
+        if timing.mode == 'live':
+            # the timeline of a live stream counts from the start of the
+            # media: the decode times stored in a file need not start at zero
+            tfdt.base_media_decode_time -= representation.start_time
 
         # Update the sequenceNumber field in the MovieFragmentHeader
         # box
